@@ -9,6 +9,8 @@ import (
 	"encoding/json"
 	"fmt"
 	"hash/fnv"
+	"os"
+	"path/filepath"
 	"reflect"
 	"runtime"
 	"strconv"
@@ -147,7 +149,7 @@ func prepare(vm *otto.Otto, spec rtSpec) {
 		vm.SetRandomSource(lcg(spec.Seed))
 	}
 	if spec.Interrupt {
-		harness.Arm(vm, 2_000_000)
+		harness.Arm(vm, 200_000)
 	} else {
 		vm.Interrupt = nil
 	}
@@ -202,7 +204,7 @@ func executeWith(vm *otto.Otto, spec rtSpec, script, program func() interface{},
 	// the host keeps the errors of two failed parses while this and other runtimes go on parsing, and reads them
 	// only at the end: they must still describe their own source text
 	_, heldRun := vm.Run("var held = (" + strconv.Itoa(spec.Seed) + ";\n  ) oops")
-	_, heldCompile := vm.Compile("held-"+strconv.Itoa(spec.Seed)+".js", "function (" + strconv.Itoa(spec.Seed))
+	_, heldCompile := vm.Compile("held-"+strconv.Itoa(spec.Seed)+".js", "function ("+strconv.Itoa(spec.Seed))
 	if spec.DefaultRandom {
 		// Math.random without a source of the runtime's own: whatever all runtimes of the process share behind it
 		// is used concurrently; the values themselves are not part of the result
@@ -389,10 +391,12 @@ func runCase(c raceCase) (v verdict) {
 	}
 	hashBefore := scriptHash(scriptA)
 	baseline := make([][]string, len(c.Runtimes))
+	twins := 0
 	for i, spec := range c.Runtimes {
 		vm := makeRuntime(tmplA, spec)
 		baseline[i] = execute(vm, spec, scriptA, progA, c.Reuse)
-		if spec.Shared && i < 3 {
+		if spec.Shared && twins < 2 {
+			twins++
 			// the same runtime history with the shared source submitted as TEXT every time (compiled afresh per run):
 			// a compiled Script that remembers anything from its previous run on this runtime shows as a difference
 			twin := makeRuntime(tmplA, spec)
@@ -523,6 +527,9 @@ func checkRace(c raceCase) harness.Outcome {
 		return out
 	case harness.WorkerTimeout:
 		out.Discard = "worker timeout (inconclusive)"
+		if b, err := json.Marshal(c); err == nil { // kept for inspection: which case did not finish
+			_ = os.WriteFile(filepath.Join(harness.Root(), ".work", fmt.Sprintf("c20-timeout-%x.json", harness.Hash64(string(b)))), b, 0o644)
+		}
 		return out
 	}
 	var v verdict
@@ -562,9 +569,9 @@ func countKind(c raceCase, k string) int {
 }
 
 var raceFacet = harness.Register(&harness.Facet[raceCase]{
-	Name: "concurrent-runtimes",
-	Rule: "rapid: a template history (all heap builders plus 1-3 drawn ones), one shared source compiled once to a Script and parsed once to a Program, and 2-8 runtimes of mixed provenance (fresh, copies of the template, copies of such copies that run at the same time, the template itself; a third of them first draw from Math.random without a source of their own), each sweeping the whole standard library once or twice and then running 1-4 private programs followed by a call of every function left in the global scope (heap builders/mutators, programs touching every subsystem with package-level data: regexp, JSON, Date, sort, number formatting, Math with a per-runtime random source, URI functions, error creation and stack text, accessor descriptors, Function/eval, strings; 30% from the semantic generator), half of them with an interrupt channel, a Script reuse count 1-50, GOMAXPROCS 2/4/16, optionally Copy() of the template from several goroutines while it runs. Executed in a -race worker subprocess. Oracle: (1) no race report / fatal error (worker death is attributed to the case), (2) each runtime's results and host-free trace equal those of the same programs run alone sequentially, (3) the structural hash of the compiled Script (read-only reflection over all fields) is unchanged by execution, (4) a sharing runtime gets the same results when the shared source is compiled afresh before every run instead of once (a Script that remembers its previous run), (5) stability: a fresh runtime computes the same canary (formatting probes and the library sweep) before, between and after the phases of every case as at the start of the worker process. Non-trivial = at least two runtimes share the Script/Program or the template; distinct by case",
-	Quick:    32,
+	Name:     "concurrent-runtimes",
+	Rule:     "rapid: a template history (all heap builders plus 1-3 drawn ones), one shared source compiled once to a Script and parsed once to a Program, and 2-8 runtimes of mixed provenance (fresh, copies of the template, copies of such copies that run at the same time, the template itself; a third of them first draw from Math.random without a source of their own), each sweeping the whole standard library once or twice and then running 1-4 private programs followed by a call of every function left in the global scope (heap builders/mutators, programs touching every subsystem with package-level data: regexp, JSON, Date, sort, number formatting, Math with a per-runtime random source, URI functions, error creation and stack text, accessor descriptors, Function/eval, strings; 30% from the semantic generator), half of them with an interrupt channel, a Script reuse count 1-50, GOMAXPROCS 2/4/16, optionally Copy() of the template from several goroutines while it runs. Executed in a -race worker subprocess. Oracle: (1) no race report / fatal error (worker death is attributed to the case), (2) each runtime's results and host-free trace equal those of the same programs run alone sequentially, (3) the structural hash of the compiled Script (read-only reflection over all fields) is unchanged by execution, (4) a sharing runtime gets the same results when the shared source is compiled afresh before every run instead of once (a Script that remembers its previous run), (5) stability: a fresh runtime computes the same canary (formatting probes and the library sweep) before, between and after the phases of every case as at the start of the worker process. Non-trivial = at least two runtimes share the Script/Program or the template; distinct by case",
+	Quick:    24,
 	Thorough: 40,
 	Gen: func(t *rapid.T) raceCase {
 		c := raceCase{Reuse: rapid.SampledFrom([]int{1, 2, 5, 20, 50}).Draw(t, "reuse"), Procs: rapid.SampledFrom([]int{2, 4, 16}).Draw(t, "procs")}
